@@ -167,6 +167,40 @@ def patched_os(script):
         os.write, os.read = real_write, real_read
 
 
+class NullFile:
+    """swallows what the console prints while it runs at a talkative verbosity"""
+    name, closed = "<null>", False
+
+    def __init__(self):
+        self.chars = 0
+
+    def write(self, msg):
+        self.chars += len(msg)
+
+    def flush(self):
+        pass
+
+
+@contextlib.contextmanager
+def console_at(level):
+    """run with ioflo's console at verbosity `level` (0 mute .. 4 profuse); the logging statements of the
+    transports are code on the data path (they format the payload), so checks run a share of cases at every level"""
+    from ioflo.aid import consoling
+    console = consoling.getConsole()
+    old = (console._verbosity, console._file)
+    sink = NullFile()
+    console._verbosity, console._file = level, sink
+    try:
+        yield sink
+    finally:
+        console._verbosity, console._file = old
+
+
+def verbosity_of(case_key):
+    """a console verbosity (0..4) fixed by the case itself, so that replays run at the same level"""
+    return int(case_key[:8], 16) % 5
+
+
 def hx(b):
     b = bytes(b)
     return b.hex() if b else "-"
